@@ -182,7 +182,7 @@ def read_instant(i, s):
 BASED_INT_REGEX = re.compile("0(x|o|b|d)([0-9a-fA-F]+)")
 NUM_REGEX = re.compile(r"""
     (([0-9]+\.?[0-9]*)|([0-9]*\.?[0-9]+))  # Decimal, float or integer
-    (e\-?[0-9]+)?                          # Scientific notation""",
+    (e[\-+]?[0-9]+)?                       # Scientific notation""",
     re.VERBOSE)
 
 def read_num_token(i, s):
